@@ -521,6 +521,19 @@ def _c09_cli_pairs(chk, thorough):
                    "step into 10;help;step;quit", "break add x3003;c;c;q", "break add x3007;break add x300a;c;r;c;r;c;q"]:
         b = vlib.run_lace(["debug", "--minimal", mp, "--command", script])
         events.append({"ev": "dbgpair", "tag": "midline", "run": [a[0], norm(a[1])], "dbg": [b[0], norm(b[1])], "script": script, "src": mid_src})
+    # the same WITHOUT --minimal: the debugger draws tables and source excerpts (on stderr); whatever it draws, what the program prints and how it ends stay the same.
+    # Source lines are long and hold multi-byte characters at every byte offset around the columns the tables cut at.
+    wide = ["\u017dlu\u0165ou\u010dk\u00fd k\u016f\u0148 \u00fap\u011bl \u010f\u00e1belsk\u00e9 \u00f3dy", "x" * 13 + "\u00e9" * 12, "x" * 14 + "\u2713" * 9, "x" * 15 + "\U0001F600" * 6, "\u00e9" * 40]
+    for k, text in enumerate(wide):
+        nm_src = "ld r0 a\nout\nlea r0 s%d\nputs\nreg\nhalt\na .fill x41\ns%d .stringz \"%s\" ; %s\n" % (k, k, text, text[::-1])
+        npath = os.path.join(d, "wide%d.asm" % k)
+        open(npath, "w").write(nm_src)
+        a = vlib.run_lace(["run", npath])
+        norm = lambda o: _norm_out(o, [npath])
+        for script in ["break add s%d;break add s%d+%d;break list;step;assembly;c;q" % (k, k, 3 + k), "step into 2;assembly s%d;registers;print s%d;help;c;q" % (k, k),
+                       "break add ^1;break list;c;break list;assembly;r;c;q"]:
+            b = vlib.run_lace(["debug", npath, "--command", script])
+            events.append({"ev": "dbgpair", "tag": "wide-nonminimal", "run": [a[0], norm(a[1])], "dbg": [b[0], norm(b[1])], "script": script, "src": nm_src})
     _cli_validate(chk, events, "dbgpair")
     _env_events(chk, {"xport"}, n=9)
     _shutil.rmtree(d, ignore_errors=True)
